@@ -9,6 +9,7 @@ import ast
 from engine import astq as Q
 from engine.cfg import walk_noscope
 from engine.pysrc import Repo, F, dotted, src, calls_in
+from engine.effects import Effects, fmt as fmt_effect
 from engine.report import AnalysisError
 from rules import c11
 
@@ -73,6 +74,19 @@ def rule_resume(ctx, repo):
     ctx.check(ok, "C14.resume", "TDS.run/store", "rows stored for accepted steps only", "dae.store() outside the accepted-step branch", r.W())
 
 
+def rule_effects(ctx, repo):
+    """Effect rule: the restore paths only re-link objects; they do not write the numeric content of the solver arrays.
+    (The next step reads x, y AND f -- the trapezoidal rule uses the stored derivative of the previous step.)"""
+    E = Effects(repo)
+    for what, ci, fn, allowed in (("snapshot.load_ss", SNAP, repo.func(SNAP, "load_ss"), ()),
+                                  ("fix_view_arrays", SYSTEM, repo.func(SYSTEM, "fix_view_arrays"), ()),
+                                  ("TDS.init_resume",) + repo.method("TDS", "init_resume", TDS) + (("dae.t",),)):
+        ws = [w for w in E.writes(ci, fn) if w[2] not in allowed]
+        ctx.check(not ws, "C14.effects", what, "no write to x/y/f/g/v/e content reachable (callee edges resolved: %d)" % E.resolved_calls,
+                  "the restore path changes solver state: %s" % "; ".join(fmt_effect(w) for w in ws[:3]),
+                  repo.W(ci, fn) if not isinstance(ci, str) else "%s:%d" % (ci, fn.lineno))
+
+
 def rule_snapshot(ctx, repo):
     s = F.function(repo, SNAP, "save_ss")
     a = s.calls("system.remove_pycapsule")
@@ -117,11 +131,14 @@ def run(ctx):
     ctx.rule("C14.resume", "typestate: sentinel t<0; init iff t<0 else resume; resume path rebuilds nothing and does not move the event "
              "pointer; unpack and pbar cleanup after the loop", 12)
     ctx.rule("C14.snapshot", "ordering: strip C objects -> dump; import pycode -> load -> repoint views; __getstate__ present", 8)
+    ctx.rule("C14.effects", "effect analysis over the resolved call graph: load_ss / fix_view_arrays / init_resume write no array content "
+             "(init_resume: only dae.t)", 3)
     ctx.rule("C14.reset", "restore before setup on reset (C11 rules)", 3)
     ctx.assume("trajectory equality up to discretisation error for every split point is numerical: declined; these are necessary conditions only")
     repo = Repo()
     rule_resume(ctx, repo)
     rule_snapshot(ctx, repo)
+    rule_effects(ctx, repo)
     before = len(ctx.results)
     c11.rule_reset(ctx, repo)
     for r in ctx.results[before:]:
